@@ -38,6 +38,7 @@ Judge(k) ==
 C_Step(k) ==
   LET a == ln(k).args IN
   CASE ln(k).ev = "PeerCommit" -> clients' = clients
+    [] ln(k).ev = "Lapse" -> clients' = clients
     [] ln(k).ev = "Create"  -> CreateEff(a.n, a.ty, a.h, a.ct)  /\ (ln(k).res = "ok") = CreateOK(a.n, a.ty, a.h, a.ct)
     [] ln(k).ev = "Upgrade" -> UpgradeEff(a.n, a.ty, a.h, a.ct) /\ (ln(k).res = "ok") = UpgradeOK(a.n, a.ty, a.h, a.ct)
     [] ln(k).ev = "Toggle"  -> ToggleEff(a.n, a.ty, a.h, a.ct)  /\ (ln(k).res = "ok") = ToggleOK(a.n, a.ty, a.h, a.ct)
